@@ -51,3 +51,10 @@ package binutils
 // arithmetic is modular and no comparison with the base decides whether to ask.
 //@ func llvmSymbolizer.addrInfo nosafety
 //@   mustcall invoke.write query_sent: true when true
+
+// ---- C13 (strengthened after seeded change nm-parse-drops-zero-size-symbols): every nm line with four fields whose
+// address and size parse as hexadecimal numbers becomes a table entry — whatever the size, zero included (llvm-nm
+// prints unsized functions with size 0) — at address + base; other lines add nothing.
+//@ func parseAddr2LinerNM arith bv nosafety
+//@   loop 1
+//@     step parsed_line_kept: len(fields) == 4 && callres("ParseUint#1", 1) == nil && callres("ParseUint#2", 1) == nil ==> len(a.m) == atiter(1, len(a.m)) + 1 && a.m[len(a.m) - 1].address == callres("ParseUint#1", 0) + base && a.m[len(a.m) - 1].size == callres("ParseUint#2", 0)
